@@ -18,12 +18,17 @@ import FluteModel.MultiRecv
     lrm <id>                         remove_listener                                               -> ok
     llog <id>                        what listener <id> has been told (also after lrm / drop),
                                      per key in key order: <key>=<+-+...>                          -> ok [k=+-.. ...]
+  Every line may end with annotation tokens `#<key>=<n>`: the implementation side reports how many writer callbacks the
+  call made per session (the real Receiver is opaque to this driver); the model answers WHICH (endpoint, tsi) each of
+  them carries - printed as `cb=<key>,<key>,...` (sorted) after the events, for push / cleanup / drop.
+
     race <n>                         n sessions expiring while cleanup runs, then drop            -> opens n closes n
 -/
 namespace Flute.Drv.Tsi
 open Flute Flute.MultiRecv Flute.TsiFilter
 
-abbrev MState := State Act Unit
+abbrev MState := State Act (List Key)
+abbrev Env := List (Key × Nat)
 
 /-- the 8 standard probes: 2 endpoints x (no source | source 7) x TSI 1,2 -/
 def defaultProbes : List (Endpoint × Nat) :=
@@ -69,7 +74,7 @@ def parseProbe (s : String) : Option (Endpoint × Nat) :=
     | _, _ => none
   | _ => none
 
-def parseFOp (s : String) : Option (Op Unit) :=
+def parseFOp (s : String) : Option (Op Env) :=
   match s.splitOn ":" with
   | ["a", e, t] => match parseEp e, t.toNat? with
     | some e, some t => some (.addListen e t)
@@ -81,31 +86,28 @@ def parseFOp (s : String) : Option (Op Unit) :=
   | ["R", e] => (parseEp e).map .removeAll
   | _ => none
 
-/-- events appended by a step -/
-def newEvents (before after : MState) : List Event := after.events.drop before.events.length
-
 def withEvents (pre : String) (evs : List String) : String :=
   if evs.isEmpty then pre else pre ++ " " ++ joinSp evs
 
 /-- apply filter ops; `none` = panic -/
-def applyFOps (M : Machine Act Unit Unit) : MState → List (Op Unit) → Option MState
+def applyFOps (M : Machine Act Env (List Key)) : MState → List (Op Env) → Option MState
   | s, [] => some s
   | s, op :: ops =>
     match step M s op with
     | (_, .panic) => none
     | (s', _) => applyFOps M s' ops
 
-def probeBits (M : Machine Act Unit Unit) : MState → List (Endpoint × Nat) → List Char
+def probeBits (M : Machine Act Env (List Key)) : MState → List (Endpoint × Nat) → List Char
   | _, [] => []
   | s, (ep, tsi) :: r =>
-    let s' := (push M s ep (some ⟨tsi, false, ()⟩)).1
+    let s' := (push M s ep (some ⟨tsi, false, []⟩)).1
     let opened := (newEvents s s').contains (.opened ⟨ep, tsi⟩)
     (if opened then '1' else '0') :: probeBits M s' r
 
 def raceLine (n : Nat) : String :=
   let M := actMachine (some 0)
-  let pushes : List (Op Unit) := (List.range n).map fun i => .push ⟨none, 0, i + 1⟩ (some ⟨1, false, ()⟩)
-  let s := run M (State.new false) (pushes ++ [.tick 1, .cleanup 0, .drop])
+  let pushes : List (Op Env) := (List.range n).map fun i => .push ⟨none, 0, i + 1⟩ (some ⟨1, false, []⟩)
+  let s := run M (State.new false) (pushes ++ [.tick 1, .cleanup [], .drop []])
   let o := (s.events.filter fun e => match e with | .opened _ => true | _ => false).length
   let c := (s.events.filter fun e => match e with | .closed _ => true | _ => false).length
   s!"opens {o} closes {c}"
@@ -120,7 +122,27 @@ def canonLog (evs : List Event) : List String :=
     k ++ "=" ++ String.ofList ((evs.filter (fun e => showKey e.key = k)).map
       (fun e => match e with | .opened _ => '+' | .closed _ => '-'))
 
-def unitOp (d : DState) (op : Op Unit) : DState × String :=
+def parseKey (s : String) : Option Key :=
+  match s.splitOn ":" with
+  | [e, t] => match parseEp e, t.toNat? with
+    | some e, some t => some ⟨e, t⟩
+    | _, _ => none
+  | _ => none
+
+/-- `#<key>=<n>` -/
+def parseAnnot (s : String) : Option (Key × Nat) :=
+  match (s.drop 1).toString.splitOn "=" with
+  | [k, n] => match parseKey k, n.toNat? with
+    | some k, some n => some (k, n)
+    | _, _ => none
+  | _ => none
+
+/-- the keys carried by the callbacks of the outputs an operation appended -/
+def cbToken (before after : MState) : List String :=
+  let ks := sortStrings (((newOuts before after).flatMap (fun o => o.2)).map showKey)
+  if ks.isEmpty then [] else ["cb=" ++ ",".intercalate ks]
+
+def unitOp (d : DState) (op : Op Env) : DState × String :=
   match d.live with
   | none => (d, "bad-op")
   | some s =>
@@ -128,7 +150,7 @@ def unitOp (d : DState) (op : Op Unit) : DState × String :=
     | (_, .panic) => (d, "PANIC")
     | (s', _) => ({ d with mr := some s' }, "ok")
 
-def step (d : DState) (args : List String) : DState × String :=
+def stepA (d : DState) (args : List String) (env : Env) : DState × String :=
   match args with
   | "probes" :: ps =>
     match ps.mapM parseProbe with
@@ -168,16 +190,16 @@ def step (d : DState) (args : List String) : DState × String :=
   | "push" :: e :: t :: kind :: _ =>
     match d.live, parseEp e, t.toNat? with
     | some s, some ep, some tsi =>
-      let pkt? : Option (Option (Pkt Unit)) :=
-        if kind = "d" then some (some ⟨tsi, false, ()⟩)
-        else if kind = "c" then some (some ⟨tsi, true, ()⟩)
+      let pkt? : Option (Option (Pkt Env)) :=
+        if kind = "d" then some (some ⟨tsi, false, env⟩)
+        else if kind = "c" then some (some ⟨tsi, true, env⟩)
         else if kind = "x" then some none else none
       match pkt? with
       | none => (d, "bad-op")
       | some pkt =>
         let (s', r) := push (actMachine d.timeout) s ep pkt
         let res := if r = .parseErr then "err" else "ok"
-        ({ d with mr := some s' }, withEvents res ((newEvents s s').map showEvent))
+        ({ d with mr := some s' }, withEvents res ((newEvents s s').map showEvent ++ cbToken s s'))
     | _, _, _ => (d, "bad-op")
   | ["tick"] =>
     -- one tick of the harness = strictly more than the session timeout
@@ -187,14 +209,14 @@ def step (d : DState) (args : List String) : DState × String :=
   | ["cleanup"] =>
     match d.live with
     | some s =>
-      let s' := cleanup (actMachine d.timeout) s 0
-      ({ d with mr := some s' }, withEvents "ok" (sortStrings ((newEvents s s').map showEvent)))
+      let s' := cleanup (actMachine d.timeout) s env
+      ({ d with mr := some s' }, withEvents "ok" (sortStrings ((newEvents s s').map showEvent) ++ cbToken s s'))
     | none => (d, "bad-op")
   | ["drop"] =>
     match d.live with
     | some s =>
-      let s' := drop s
-      ({ d with mr := some s', dropped := true }, withEvents "ok" (sortStrings ((newEvents s s').map showEvent)))
+      let s' := drop (actMachine d.timeout) s env
+      ({ d with mr := some s', dropped := true }, withEvents "ok" (sortStrings ((newEvents s s').map showEvent) ++ cbToken s s'))
     | none => (d, "bad-op")
   | ["ladd"] =>
     match d.live with
@@ -219,5 +241,11 @@ def step (d : DState) (args : List String) : DState × String :=
     | some n => (d, raceLine n)
     | none => (d, "bad-op")
   | _ => (d, "bad-op")
+
+def step (d : DState) (args : List String) : DState × String :=
+  let main := args.filter (fun a => !a.startsWith "#")
+  match (args.filter (fun a => a.startsWith "#")).mapM parseAnnot with
+  | some env => stepA d main env
+  | none => (d, "bad-op")
 
 end Flute.Drv.Tsi
